@@ -10,9 +10,9 @@ trap 'rm -f "$ov"' EXIT
 case "${1:-names}" in
 names)
   printf '{"Replace":{"%s/server/internal/internal/names/zz_c13_bounded_test.go":"%s/names_bounded_test.go"}}' "$repo" "$here" > "$ov"
-  cd "$repo" && timeout 600 go test -overlay "$ov" -vet=off -timeout 540s -run 'TestC13BoundedNames$' -count=1 ./server/internal/internal/names ;;
+  cd "$repo" && timeout 200 go test -overlay "$ov" -vet=off -timeout 150s -run 'TestC13BoundedNames$' -count=1 ./server/internal/internal/names ;;
 digests)
   printf '{"Replace":{"%s/server/zz_c13_bounded_test.go":"%s/digest_bounded_test.go"}}' "$repo" "$here" > "$ov"
-  cd "$repo" && timeout 900 go test -overlay "$ov" -vet=off -timeout 840s -run 'TestC13BoundedDigests$' -count=1 ./server ;;
+  cd "$repo" && timeout 280 go test -overlay "$ov" -vet=off -timeout 240s -run 'TestC13BoundedDigests$' -count=1 ./server ;;
 *) echo "unknown bounded check $1"; exit 2 ;;
 esac
